@@ -212,7 +212,7 @@ func (p *parser) parseObjectTypeDefinition(description descriptionWithComment) *
 
 func (p *parser) parseImplementsInterfaces() []string {
 	var types []string
-	if p.peek().Value == "implements" {
+	if peek := p.peek(); peek.Kind == lexer.Name && peek.Value == "implements" {
 		p.next()
 		// optional leading ampersand
 		p.skip(lexer.Amp)
@@ -417,6 +417,11 @@ func (p *parser) parseInputFieldsDefinition() (FieldList, *CommentGroup) {
 
 func (p *parser) parseTypeSystemExtension(doc *SchemaDocument) {
 	_, comment := p.expectKeyword("extend")
+
+	if p.peek().Kind != lexer.Name {
+		p.unexpectedError()
+		return
+	}
 
 	switch p.peek().Value {
 	case "schema":
